@@ -218,7 +218,7 @@ fn main() {
              Shared edges: all quadruples (a,b,c,d) on a QxQ grid with c, d on opposite sides of a-b (exhaustive) plus random. Polylines: 0..=6 vertices incl. repeated vertices and reversals, translated and untranslated. \
              Non-trivial = non-degenerate triangle / valid opposite-side pair / polyline with >= 2 points; distinct = distinct vertex tuples.",
         );
-        let g = run.tier(7u64, 10u64);
+        let g = run.tier(7u64, 12u64);
         let gp = g * g;
         run.generate("triangle-grid", gp * gp * gp, true, 0.3, |ctx, idx, _rng| {
             let at = |i: u64| Point::new((i % g) as i32, (i / g) as i32);
@@ -233,7 +233,7 @@ fn main() {
                 ctx.sample(|| jobj! {"triangle" => tdesc(v), "points" => set.len() as u64});
             }
         });
-        let nr = run.tier(40_000u64, 800_000u64);
+        let nr = run.tier(40_000u64, 6_000_000u64);
         run.generate("triangle-random", nr, false, 0.2, |ctx, _idx, rng| {
             let p = |rng: &mut Rng| Point::new(rng.i32r(-100, 100), rng.i32r(-100, 100));
             let a = p(rng);
@@ -248,12 +248,12 @@ fn main() {
             let (a, b, c, d) = (at(idx % qp), at((idx / qp) % qp), at((idx / (qp * qp)) % qp), at(idx / (qp * qp * qp)));
             check_quad(ctx, a, b, c, d);
         });
-        let nq = run.tier(40_000u64, 800_000u64);
+        let nq = run.tier(40_000u64, 8_000_000u64);
         run.generate("shared-edge-random", nq, false, 0.15, |ctx, _idx, rng| {
             let p = |rng: &mut Rng| Point::new(rng.i32r(-60, 60), rng.i32r(-60, 60));
             check_quad(ctx, p(rng), p(rng), p(rng), p(rng));
         });
-        let np = run.tier(100_000u64, 2_000_000u64);
+        let np = run.tier(100_000u64, 30_000_000u64);
         run.generate("polylines", np, false, 0.2, |ctx, _idx, rng| {
             let n = rng.usizer(0, 6);
             let mut v: Vec<Point> = Vec::new();
